@@ -88,3 +88,72 @@ Print Assumptions C12_terminal_error.
 Print Assumptions C12_item.
 Print Assumptions C12_values.
 Print Assumptions C12_lookahead_io_terminal.
+
+(* ---- typed items (Proofs/StreamTypedProps.v): the same iterator over items of ANY type program (Model/StreamTyped.v) ---- *)
+From SJ Require Import Model.Ty Model.DeTyped Model.StreamTyped.
+From SJ Require Import Proofs.StreamTypedProps.
+Theorem C12_typed_end : forall E t ss,
+  tm E = TEof -> (is_io E && ss_failed ss = false) ->
+  ws_ok (rest (ss_st ss)) = true ->
+  exists ss', stream_next_typed E t ss = (None, ss')
+    /\ ss_off ss' = (off (ss_st ss) + length (rest (ss_st ss)))%nat
+    /\ rest (ss_st ss') = [].
+Proof. exact (@StreamTypedProps.stream_typed_end). Qed.
+Print Assumptions C12_typed_end.
+
+Theorem C12_typed_none_forever : forall E t ss ss',
+  stream_next_typed E t ss = (None, ss') ->
+  forall n, stream_run_typed n E t ss' = repeat (None, ss_off ss') n.
+Proof. exact (@StreamTypedProps.stream_typed_none_forever). Qed.
+Print Assumptions C12_typed_none_forever.
+
+Theorem C12_typed_item_error : forall E t ss w rst c i,
+  tm E = TEof -> (is_io E && ss_failed ss = false) ->
+  rest (ss_st ss) = w ++ rst -> ws_ok w = true ->
+  (match rst with b :: _ => ws_byte b = false | [] => False end) ->
+  (* the state after parse_whitespace: cursor on the first byte of the value, that byte peeked *)
+  de_typed (typed_fuel t rst) E t (mkSt rst (off (ss_st ss) + length w)%nat true (depth (ss_st ss))) = TErr c i ->
+  exists ss', stream_next_typed E t ss = (Some (TIErr c i), ss')
+    /\ ss_off ss' = (off (ss_st ss) + length w)%nat
+    /\ forall n, Forall (fun o => fst o = None /\ snd o = (off (ss_st ss) + length w)%nat) (stream_run_typed n E t ss').
+Proof. exact (@StreamTypedProps.stream_typed_item_error). Qed.
+Print Assumptions C12_typed_item_error.
+
+Theorem C12_typed_item_ok : forall E t ss w b r v s2,
+  tm E = TEof -> (is_io E && ss_failed ss = false) ->
+  rest (ss_st ss) = w ++ b :: r -> ws_ok w = true -> ws_byte b = false ->
+  de_typed (typed_fuel t (b :: r)) E t (mkSt (b :: r) (off (ss_st ss) + length w)%nat true (depth (ss_st ss))) = TOk (v, s2) ->
+  (self_del b = true \/ rest s2 = [] \/ (exists b' r', rest s2 = b' :: r' /\ is_delim b' = true)) ->
+  exists ss', stream_next_typed E t ss = (Some (TIVal v), ss')
+    /\ ss_off ss' = off s2 /\ rest (ss_st ss') = rest s2 /\ depth (ss_st ss') = depth s2
+    /\ ss_failed ss' = ss_failed ss /\ off (ss_st ss') = off s2.
+Proof. exact (@StreamTypedProps.stream_typed_item_ok). Qed.
+Print Assumptions C12_typed_item_ok.
+
+Theorem C12_typed_scalar_needs_delim : forall E t ss w b r v s2 b' r',
+  tm E = TEof -> (is_io E && ss_failed ss = false) ->
+  rest (ss_st ss) = w ++ b :: r -> ws_ok w = true -> ws_byte b = false ->
+  de_typed (typed_fuel t (b :: r)) E t (mkSt (b :: r) (off (ss_st ss) + length w)%nat true (depth (ss_st ss))) = TOk (v, s2) ->
+  self_del b = false -> rest s2 = b' :: r' -> is_delim b' = false ->
+  exists c i ss', stream_next_typed E t ss = (Some (TIErr c i), ss') /\ c = TrailingCharacters
+    /\ i = (off s2 + 1)%nat /\ ss_off ss' = off s2 /\ ss_st ss' = s2 /\ ss_failed ss' = ss_failed ss.
+Proof. exact (@StreamTypedProps.stream_typed_scalar_needs_delim). Qed.
+Print Assumptions C12_typed_scalar_needs_delim.
+
+Theorem C12_typed_depth_any : forall E t ss it ss',
+  stream_next_typed E t ss = (it, ss') -> depth (ss_st ss') = depth (ss_st ss).
+Proof. exact (@StreamTypedProps.stream_typed_depth_any). Qed.
+Print Assumptions C12_typed_depth_any.
+
+Theorem C12_typed_total_init : forall n E t input,
+  Forall (fun o => fst o <> Some TIBad) (stream_run_typed n E t (stream_init input)).
+Proof. exact (@StreamTypedProps.stream_typed_total_init). Qed.
+Print Assumptions C12_typed_total_init.
+
+Theorem C12_typed_history : forall E t (items : list (list N * dval * list N)) (w0 : list N) (k : nat),
+  tm E = TEof -> ws_ok w0 = true -> titems_ok E t items ->
+  stream_run_typed (length items + k) E t (stream_init (w0 ++ tstream_text items))
+  = tstream_obs (length w0) items ++ repeat (None, length (w0 ++ tstream_text items)) k.
+Proof. exact (@StreamTypedProps.stream_typed_history). Qed.
+Print Assumptions C12_typed_history.
+
